@@ -32,13 +32,15 @@ static void run(const Script& s) {
         bytes h(20, 0);
         uint16_t tot = (uint16_t)(20 + pl.size());
         h[0] = 0x45; h[1] = tos; h[2] = tot >> 8; h[3] = tot & 0xff; h[4] = id >> 8; h[5] = id & 0xff;
-        uint16_t fo = (uint16_t)((df ? 0x4000 : 0) | (mf ? 0x2000 : 0) | off);
+        // 12th token >= 1000: the reserved flag bit (0x8000) is set too (it says nothing about fragmentation); the rest are trailer octets
+        bool rf = t.size() == 12 && num(t[11]) >= 1000;
+        uint16_t fo = (uint16_t)((rf ? 0x8000 : 0) | (df ? 0x4000 : 0) | (mf ? 0x2000 : 0) | off);
         h[6] = fo >> 8; h[7] = fo & 0xff; h[8] = ttl; h[9] = proto;
         for (int i = 0; i < 4; ++i) { h[12 + i] = (src >> (24 - 8 * i)) & 0xff; h[16 + i] = (dst >> (24 - 8 * i)) & 0xff; }
         uint16_t c = csum(h); h[10] = c >> 8; h[11] = c & 0xff;
         bytes pkt = h; pkt.insert(pkt.end(), pl.begin(), pl.end());
         // optional 12th token: octets behind the IP total length (link-layer padding / trailer of the captured frame)
-        if (t.size() == 12) pkt.insert(pkt.end(), (size_t)num(t[11]), (uint8_t)0xee);
+        if (t.size() == 12) pkt.insert(pkt.end(), (size_t)(num(t[11]) % 1000), (uint8_t)0xee);
         try {
             EthernetII eth = EthernetII() / IP(pkt.data(), (uint32_t)pkt.size());
             PDU::serialization_type before = eth.serialize();
